@@ -185,9 +185,46 @@ def handoff_findings(ctx):
     ctx.known_findings = merged
 
 
+def regenerate_src(ctx):
+    """Tie to the source text: tools/c01src/gen_src.py rewrites coq/C01/gen/Src.v from the clang AST of the working
+    tree (only when the text changes); PropertiesSrc.v then re-proves that it coincides with Model.v."""
+    gen = os.path.join(ctx.coqdir, "gen", "Src.v")
+    os.makedirs(os.path.dirname(gen), exist_ok=True)
+    inc = ctx.include_dir()
+    tool = os.path.join(ctx.verif, "tools", "c01src", "gen_src.py")
+    rc, out = vlib.sh(["python3", tool, ctx.repo, inc, gen, os.path.join(ctx.build, "ast")], timeout=300)
+    if rc != 0 or not os.path.exists(gen):
+        ctx.log("source extractor failed:\n" + out[-1500:])
+        ctx.broken.append("source extractor tools/c01src/gen_src.py failed (rc=%s)" % rc)
+        return
+    txt = open(gen).read()
+    ctx.cov["src_regenerated"] = {"file": "coq/C01/gen/Src.v", "definitions": txt.count("\nDefinition "),
+                                  "not_understood_nodes": txt.count("Unk \""), "bytes": len(txt)}
+
+
+def explain_src_failure(ctx):
+    """name the lemma of ProofsSrc.v / theorem of PropertiesSrc.v at which the build stopped"""
+    log = getattr(ctx, "coq_log", "")
+    for fn in ("ProofsSrc.v", "PropertiesSrc.v", "gen/Src.v"):
+        m = re.search(r'File "\./%s", line (\d+)' % re.escape(fn), log)
+        if m:
+            line = int(m.group(1)); name = "?"
+            for k, l in enumerate(open(os.path.join(ctx.coqdir, fn)).read().split("\n"), 1):
+                mm = re.match(r"\s*(?:Lemma|Theorem|Definition)\s+([A-Za-z_][\w']*)", l)
+                if mm and k <= line:
+                    name = mm.group(1)
+            ctx.log("regenerated-source obligation fails: %s (%s line %d)" % (name, fn, line))
+            ctx.cov["src_obligation_failed_at"] = "%s:%d %s" % (fn, line, name)
+            ctx.broken.append("regenerated source no longer matches the model: %s (%s line %d)" % (name, fn, line))
+            return
+
+
 def run(ctx):
     handoff_findings(ctx)
-    ctx.coq_check(("Properties.v",))
+    regenerate_src(ctx)
+    res = ctx.coq_check(("Properties.v", "PropertiesSrc.v"))
+    if not all(res.values()):
+        explain_src_failure(ctx)
     model = ctx.extract(snippets=["conv_N.ml", "conv_Z.ml", "conv_nat.ml"])
     jobs = [dict(sources=["harness.cpp"], out="h_" + b, backend=b, sanitize="asan") for b in BACKENDS]
     exes = ctx.cxx_many(jobs)
@@ -391,6 +428,9 @@ def run(ctx):
             for k in ks[:1]:
                 ctx.sample({"backend": "internal", "T": 3, "case": gcases[g][k][1], "observed": results[k][:300]})
     ctx.trusted += [
+        "source extractor tools/c01src/gen_src.py over `clang++ -std=c++11 -fsyntax-only -Xclang -ast-dump=json` of TaskScheduler.cpp and of "
+        "tools/c01src/inst.cpp (once per tasking define): prints function bodies as terms of coq/C01/SrcLang.v (gen/Src.v, regenerated every run); "
+        "SrcLang.eval/exec (C arithmetic wrapped per type) is the reading under which PropertiesSrc.v proves them equal to Model.v",
         "correspondence harness harness/C01/harness.cpp (+ repro25.cpp), case grid and property oracle in props/C01/check.py; g++ -O1, ASan+UBSan "
         "(additional TSan builds of the TBB and OpenMP harnesses run the same value oracle in the thorough tier)",
         "TBB (tbb::parallel_for) and the OpenMP runtime (#pragma omp parallel for schedule(dynamic)) are oracles: their contract 'runs [0,n) once each "
